@@ -13,5 +13,5 @@ sed "s#=> /repo#=> $wt#" /verif/harness/go.mod > $mf/go.mod; cp /verif/harness/g
 cd /verif/harness
 go test -c -tags verif -vet=off -modfile=$mf/go.mod -o $mf/t.test ./$pkg || { echo "[try_wt] build failed"; cd "$wt"; git checkout -q -- .; rm -rf $mf; exit 2; }
 mkdir -p $mf/run; cd $mf/run
-VERIF_BIN=$mf/t.test VERIF_KNOWN=/verif/KNOWN_FINDINGS.txt $mf/t.test -test.run "^($re)\$" -test.timeout 600s -rapid.checks=$n -rapid.seed=1000003 "$@" 2>&1 | grep -v 'rapid\] draw' | grep -E "failed after|panic|flaky|^(ok|PASS|FAIL|---)|case:|died|traceback" | head -12
+VERIF_BIN=$mf/t.test VERIF_KNOWN=/verif/KNOWN_FINDINGS.txt $mf/t.test -test.run "^($re)\$" -test.timeout 600s -rapid.checks=$n -rapid.seed=1000003 "$@" 2>&1 | grep -v 'rapid\] draw' | grep -E "failed after|panic|flaky|^(ok|PASS|FAIL|---)|case:|died|traceback|DEBUG" | head -12
 cd "$wt"; git checkout -q -- . ; git clean -fdq; rm -rf $mf
